@@ -380,3 +380,36 @@ def propagate_composition(c):
                  if False else data_grid(step1.isel(z=0).transpose('x', 'y').values, spacing=(1.0, 1.5), **meta), d2)
     one = c.call(cp.propagate, a, d1 + d2)
     c.ensures("d1-then-d2", c.eq(two.isel(z=0).transpose('x', 'y').values, one.isel(z=0).transpose('x', 'y').values))
+
+
+@contract("C17", "stacks_and_offset_images_native", [F + "fft", F + "ifft", P + "propagate"] if 'F' in globals() and 'P' in globals() else
+          ["holopy.core.process.fourier:fft", "holopy.core.process.fourier:ifft", "holopy.propagation.convolution_propagation:propagate"],
+          native_only=True, bounded="native sampling: stacks of 2-3 images of 4x5 / 6x6 pixels; images whose coordinates start away from 0")
+def stacks_and_offset_images_native(c):
+    """the transforms act slice by slice on a stack of images (the transform of a stack is the stack of the transforms, and the
+    inverse returns the stack with its slices where they were); propagation keeps the pixel coordinates of an image that does not
+    start at the origin, so that d followed by -d returns the input where it was"""
+    from holopy.core.process import fourier
+    from holopy.propagation import propagate
+    shape = c.choice("shape", [(4, 5), (6, 6), (5, 4)])
+    nz = c.choice("slices", [2, 3])
+    rng = np.random.RandomState(c.int("seed", 0, 10 ** 6))
+    imgs = [data_grid(rng.randn(*shape) + 1j * rng.randn(*shape), spacing=(0.1, 0.2), z=0.5 * k) for k in range(nz)]
+    stack = xr.concat(imgs, dim='z')
+    F_stack = fourier.fft(stack)
+    close = (lambda a, b: bool(np.allclose(np.asarray(a), np.asarray(b), rtol=1e-10, atol=1e-12)))
+    c.ensures("fft-of-a-stack-is-the-stack-of-ffts", all(close(F_stack.isel(z=k).values.squeeze(), fourier.fft(imgs[k]).values.squeeze()) for k in range(nz))
+              and list(F_stack.z.values) == list(stack.z.values))
+    back = fourier.ifft(F_stack)
+    c.ensures("ifft-returns-the-stack-slice-by-slice", close(back.transpose(*stack.dims).values, stack.values) and list(back.z.values) == list(stack.z.values))
+    ox, oy = c.real("origin_x", sample=(0.5, 5)), c.real("origin_y", sample=(-3, 3))
+    d = c.real("distance", sample=(0.5, 8))
+    img = data_grid(rng.randn(*shape), spacing=0.1, medium_index=1.33, illum_wavelen=0.66, illum_polarization=(1, 0))
+    img = img.assign_coords(x=img.x.values + ox, y=img.y.values + oy)
+    out = propagate(img, d)
+    c.ensures("propagation-keeps-the-pixel-coordinates", close(out.x.values, img.x.values) and close(out.y.values, img.y.values))
+    there_and_back = propagate(out, -d)
+    c.ensures("d-then-minus-d-returns-the-image-where-it-was", close(there_and_back.x.values, img.x.values) and close(there_and_back.y.values, img.y.values)
+              and close(there_and_back.values.squeeze(), img.values.squeeze()))
+    several = propagate(img, [d, 2 * d])
+    c.ensures("list-of-distances-keeps-the-pixel-coordinates", close(several.x.values, img.x.values) and close(several.y.values, img.y.values))
